@@ -468,6 +468,12 @@ def rule_episode_state_reset(prog: Program, col: Collector) -> None:
             for e in list(ft.of_kind("store")) + list(ft.of_kind("aug")):
                 if e.obj == SELF and e.attr is not None:
                     written.setdefault(e.attr, []).append((m, e))
+                elif e.index is not None and isinstance(e.obj, tuple) and e.obj[0] == "attr" and e.obj[1] == SELF:
+                    written.setdefault(e.obj[2], []).append((m, e))        # self.cache[key] = ...
+            for e in ft.calls():
+                if e.recv is not None and e.recv[0] == "attr" and e.recv[1] == SELF and e.name in (
+                        "append", "add", "update", "setdefault", "pop", "clear", "extend", "insert", "remove", "discard", "popitem"):
+                    written.setdefault(e.recv[2], []).append((m, e))       # self.cache.update(...)
         in_reset = {e.attr for e in fterms(prog, reset).of_kind("store") if e.obj == SELF and e.attr is not None and not e.guards()}
         # reset of the wrapper may delegate: attributes of the inner env are reset by the inner reset()
         if not written:
